@@ -53,6 +53,7 @@ type c20World struct {
 	exists map[int]bool
 	valid  map[int]bool
 	spec   map[int]string
+	caseID string
 }
 
 func c20Scheme() *runtime.Scheme {
@@ -99,7 +100,10 @@ func newC20World(id string) (*c20World, error) {
 
 func (w *c20World) close() {
 	for name, pc := range w.mc.parentControllers {
-		pc.Stop()
+		pc := pc
+		if _, _, hung := guardReconcile(func() { pc.Stop() }, len(w.mc.parentControllers)-1); hung != "" {
+			sim.R().Violation("C20", w.caseID, "stop-blocked-forever:doneCh-never-closed", "(*parentController).Stop is parked waiting for doneCh while the controller goroutine that alone closes it is gone (two goroutine dumps 2 s apart):\n"+hung, nil)
+		}
 		delete(w.mc.parentControllers, name)
 	}
 	w.env.Close()
@@ -172,9 +176,18 @@ func c20StartsOK(specKind string) bool {
 }
 
 func (w *c20World) reconcile(i int) (err error, panicMsg string) {
-	stack, p := sim.Guard(func() {
+	others := len(w.mc.parentControllers)
+	if _, ok := w.mc.parentControllers[w.ccName(i)]; ok {
+		others--
+	}
+	stack, p, hung := guardReconcile(func() {
 		_, err = w.mc.Reconcile(context.TODO(), reconcile.Request{NamespacedName: types.NamespacedName{Name: w.ccName(i)}})
-	})
+	}, others)
+	if hung != "" {
+		// reported once, as a panic-like outcome of this Reconcile: every caller stops there
+		sim.R().Violation("C20", w.caseID, "reconcile-blocked-forever:Stop-waits-for-doneCh", "Reconcile is parked in (*parentController).Stop waiting for doneCh while no parentController.Start goroutine exists that could close it (two goroutine dumps 2 s apart); no CompositeController is followed any more:\n"+hung, nil)
+		return fmt.Errorf("reconcile never returned"), "reconcile never returned"
+	}
 	if p {
 		return fmt.Errorf("panic"), stack
 	}
@@ -273,6 +286,7 @@ func runC20(t *testing.T, id string, steps []c20Step) {
 		inconclusive(t, "C20", id, err)
 		return
 	}
+	w.caseID = id
 	defer w.close()
 	s := w.sim
 	var desc []string
@@ -579,6 +593,7 @@ func runC20StopDuringRelatedSync(t *testing.T, id string, parents int, then stri
 		inconclusive(t, "C20", id, err)
 		return
 	}
+	w.caseID = id
 	defer w.close()
 	s := w.sim
 	w.hooks.SetOverride(func(call *sim.HookCall) *sim.HookResponse {
